@@ -5,7 +5,7 @@
    parent timeouts on the simulated fabric and checks them in Coq against this model. *)
 From Coq Require Import List Arith String.
 Import ListNotations.
-From LSF Require Import Tokens TokensProofs Children ChildrenProofs.
+From LSF Require Import Tokens TokensProofs Children ChildrenProofs ChildrenDrainProofs.
 
 Theorem C15_callback_completes_exactly_its_task : forall s t r,
   In t (waiting s) ->
@@ -69,6 +69,20 @@ Theorem C15_termination_cancels_blocked_child : forall w t clog c q m,
     lookup c (kids w') = Some (CEnded false) /\ lookup c (pend w') = None /\ In (q_task q, VTerminated) (done w').
 Proof. exact cancel_reaches_blocked_child. Qed.
 
+Theorem C15_every_child_started_once : forall l w, crun cinit l = Some w -> NoDup (map fst (started w)).
+Proof. exact every_child_started_once. Qed.
+
+(* every armed timer of the protocol belongs to a pending request or to a child that is blocked on it, so once no request is pending
+   and every child has ended none is left armed (the drain clause of C03 for child launches) *)
+Theorem C15_armed_timers_have_owners : forall l w n,
+  Forall first_delivery l -> crun cinit l = Some w -> In n (armed w) -> owned w n.
+Proof. exact armed_timers_have_owners. Qed.
+
+Theorem C15_no_timer_left_once_all_has_ended : forall l w,
+  Forall first_delivery l -> crun cinit l = Some w -> pend w = [] ->
+  (forall c ph, lookup c (kids w) = Some ph -> exists ok, ph = CEnded ok) -> armed w = [].
+Proof. exact nothing_armed_once_all_has_ended. Qed.
+
 (* known finding F34, as a statement about the model: a child that ends between a restart and the redelivery of its parent's Task *)
 Theorem C15_child_end_before_redelivered_launch_refuted :
   exists w1 w3, crun cinit [ILaunch 5 0 true FSync 1 false 9] = Some w1 /\
@@ -97,3 +111,6 @@ Print Assumptions C15_async_launch_completes_at_once.
 Print Assumptions C15_timeout_cancels_blocked_child.
 Print Assumptions C15_termination_cancels_blocked_child.
 Print Assumptions C15_child_end_before_redelivered_launch_refuted.
+Print Assumptions C15_every_child_started_once.
+Print Assumptions C15_armed_timers_have_owners.
+Print Assumptions C15_no_timer_left_once_all_has_ended.
